@@ -10,21 +10,22 @@ MARK = object()
 N_OUTCOMES = 10
 
 
-def _levels(kind: str, p0: int, d1: int, p1: int, snaps: int, pre: int) -> Tuple[Level, ...]:
-    l0 = Level(defines=True, pre=pre, post=p0, snaps=snaps if p0 else 0)
+def _levels(kind: str, p0: int, d1: int, p1: int, snaps: int, pre: int, fg: bool) -> Tuple[Level, ...]:
+    l0 = Level(defines=True, pre=pre, post=p0, snaps=snaps if p0 else 0, foreign=fg and (kind == "func" or d1 == 0))
     if kind == "func" or d1 == 0:
         return (l0,)
     if d1 == 1:
         return (l0, Level(defines=False))
-    return (l0, Level(defines=True, post=p1))
+    return (l0, Level(defines=True, post=p1, foreign=fg))
 
 
-def run_post(kind: str, is_async: bool, mode: str, p0: int, d1: int, p1: int, snaps: int, pre: int, bo: int,
+def run_post(kind: str, is_async: bool, mode: str, p0: int, d1: int, p1: int, snaps: int, pre: int, bo: int, fg: bool,
              t0: bool, t1: bool, t2: bool, t3: bool, t4: bool, x: int) -> Tuple[bool, bool]:
     p0, d1, p1, snaps, pre, bo = conc(p0, 0, 3), conc(d1, 0, 2), conc(p1, 0, 2), conc(snaps, 0, 1), conc(pre, 0, 1), conc(bo, 0, N_OUTCOMES - 1)
     if bo == 7 and is_async:
         bo = 6  # StopIteration cannot leave a coroutine (Python turns it into RuntimeError itself)
-    prog = Prog(kind=kind, is_async=is_async, levels=_levels(kind, p0, d1, p1, snaps, pre))
+    fg = True if fg else False  # a foreign functools.wraps decorator on top of the (most derived) contract stack
+    prog = Prog(kind=kind, is_async=is_async, levels=_levels(kind, p0, d1, p1, snaps, pre, fg))
     truths = [t0, t1, t2, t3, t4]
     offset = {0: 0, 1: p0}
 
@@ -129,11 +130,11 @@ def run_post(kind: str, is_async: bool, mode: str, p0: int, d1: int, p1: int, sn
                 elif tv("post", label[1], label[2], None):
                     ok = False
     witness = (body_raises and raised is not None) or (exp_out[0] == "violation" and raised is not None)
-    note((kind, is_async, mode, p0, d1, p1, snaps, pre, bo, tuple(rt.log), exp_out[0]), witness)
+    note((kind, is_async, mode, p0, d1, p1, snaps, pre, bo, fg, tuple(rt.log), exp_out[0]), witness)
     return ok, witness
 
 
-ALL = ["p0", "d1", "p1", "snaps", "pre", "bo", "t0", "t1", "t2", "t3", "t4", "x"]
+ALL = ["p0", "d1", "p1", "snaps", "pre", "bo", "fg", "t0", "t1", "t2", "t3", "t4", "x"]
 
 
 def _mk(kind: str, is_async: bool, mode: str, params: List[Any]):  # type: ignore
@@ -161,7 +162,7 @@ def harnesses(tier: str) -> List[H]:
                 params += [I("snaps", 0, 1)]
                 if kind == "func" or tier == "thorough":
                     params += [I("pre", 0, 1)]
-                params += [I("bo", 0, N_OUTCOMES - 1), B("t0"), B("t1"), B("t2")]
+                params += [I("bo", 0, N_OUTCOMES - 1), B("fg"), B("t0"), B("t1"), B("t2")]
                 if kind != "func" and p0hi + p1hi > 3:
                     params += [B("t3")] + ([B("t4")] if p0hi + p1hi > 4 else [])
                 params += [I("x", -4, 12)]
@@ -169,7 +170,8 @@ def harnesses(tier: str) -> List[H]:
                              family="kind={} async={} error={}; own postconditions 0..{}, optional subclass level "
                                     "(absent / not overriding / overriding with 0..{} own postconditions), snapshot 0..1, "
                                     "precondition 0..1 (func and thorough tier), body outcome in {{None, 0, '', [], object(), mutated argument, "
-                                    "raise Exception, StopIteration, BaseException, KeyboardInterrupt subclass}}".format(
+                                    "raise Exception, StopIteration, BaseException, KeyboardInterrupt subclass}}; with / without a foreign "
+                                    "functools.wraps decorator on top of the most derived contract stack".format(
                                         kind, is_async, mode, p0hi, p1hi),
                              family_size=(p0hi + 1) * ((2 + p1hi + 1) if kind != "func" else 1) * 2 * N_OUTCOMES))
     return out
